@@ -97,10 +97,10 @@ Proof.
   set (ex := ints_expand no_ints_walk m_pass_cycle ([9] ++ e_excl v) (e_pass v) v).
   assert (Hn : ex (Some (2, 2)) = (Ok, [(Ok, Some ((2, 2), Some (2, 2)))])) by reflexivity.
   assert (Hr : ex None = (Ok, [(Ok, Some ((2, 2), Some (2, 2)))])) by reflexivity.
-  assert (L : forall f vis, fst (walk pair_eqb ex Err false f (Some (2, 2)) vis) = OutOfFuel).
+  assert (L : forall f vis, fst (walk pair_eqb ex Err false false f (Some (2, 2)) vis) = OutOfFuel).
   { induction f as [|f IH]; intros vis; [reflexivity|]. cbn [walk]. rewrite Hn. cbn [go andb].
-    specialize (IH ((2, 2) :: vis)). destruct (walk pair_eqb ex Err false f (Some (2, 2)) ((2, 2) :: vis)) as [o v2].
+    specialize (IH ((2, 2) :: vis)). destruct (walk pair_eqb ex Err false false f (Some (2, 2)) ((2, 2) :: vis)) as [o v2].
     cbn [fst] in IH. subst o. reflexivity. }
   destruct fuel as [|f]; [reflexivity|]. cbn [walk]. rewrite Hr. cbn [go andb].
-  specialize (L f [(2, 2)]). destruct (walk pair_eqb ex Err false f (Some (2, 2)) [(2, 2)]) as [o v2]. cbn [fst] in L. subst o. reflexivity.
+  specialize (L f [(2, 2)]). destruct (walk pair_eqb ex Err false false f (Some (2, 2)) [(2, 2)]) as [o v2]. cbn [fst] in L. subst o. reflexivity.
 Qed.
